@@ -67,11 +67,13 @@ template<class T> inline const char* code() { return TI<T>::code(); }
 // tagged values, written component by component (never through the constructors under test)
 template<int L, class T, glm::qualifier Q> inline glm::vec<L, T, Q> tagvec(int off) {
     glm::vec<L, T, Q> v;
+    std::memset(static_cast<void*>(&v), 0xA5, sizeof v);       // padding lanes of aligned types hold a poison pattern, never a copy of a component
     for (int i = 0; i < L; ++i) v[i] = tag<T>(off + i);
     return v;
 }
 template<int C, int R, class T, glm::qualifier Q> inline glm::mat<C, R, T, Q> tagmat(int off) {
     glm::mat<C, R, T, Q> m;
+    std::memset(static_cast<void*>(&m), 0xA5, sizeof m);
     for (int c = 0; c < C; ++c) for (int r = 0; r < R; ++r) m[c][r] = tag<T>(off + c * R + r);
     return m;
 }
